@@ -92,6 +92,20 @@ func (m MetavarMatcher) Match(got reflect.Value, d data.Data, r Region) (data.Da
 		return d, false
 	}
 
+	// Some nodes are an ast.Expr only so that they fit where expressions
+	// go. They cannot be moved to another place like an expression can.
+	switch n := got.Interface().(type) {
+	case *ast.KeyValueExpr, *ast.Ellipsis:
+		// "k: v" in a composite literal, "...T" in a parameter list,
+		// the "..." of "[...]T".
+		return d, false
+	case *ast.CompositeLit:
+		// {1} in []T{{1}}: its type is implied by where it is.
+		if n.Type == nil {
+			return d, false
+		}
+	}
+
 	key := metavarKey(m.Name)
 
 	var md metavarData
